@@ -94,3 +94,62 @@ pub fn decomposition_groups(env: &crate::env::Env) -> Vec<Vec<String>> {
     }
     out
 }
+
+/// Thorough tier only: one label of more than 4 GiB - "abcdefgh", 2^32 times 'a', then `tail` -
+/// through one rule function. Offsets kept in 32 bits wrap here. The expectation is assembled
+/// from the reference's answer on the short analogue ("abcdefgh" + "a" + tail), which is sound
+/// for rules that treat a run of 'a' as opaque filler (all five do). Skipped, with a note, when
+/// the machine does not have the memory.
+pub fn check_rule_giga<F: Fn(&str) -> String>(p: Prof, r: RuleFn, tail: &str, reference: F, st: &mut Stats) {
+    let avail_kib: u64 = std::fs::read_to_string("/proc/meminfo")
+        .ok()
+        .and_then(|t| t.lines().find(|l| l.starts_with("MemAvailable:")).and_then(|l| l.split_whitespace().nth(1).and_then(|x| x.parse().ok())))
+        .unwrap_or(0);
+    if avail_kib < 20 * 1024 * 1024 {
+        st.note(format!("4 GiB label through {}: skipped, only {} MiB of memory available", r.name(), avail_kib / 1024));
+        return;
+    }
+    const N: usize = 1 << 32;
+    let head = "abcdefgh";
+    let short_in = format!("{}a{}", head, tail);
+    let short_exp = reference(&short_in);
+    let exp_tail = match short_exp.strip_prefix("abcdefgha") {
+        Some(t) => t.to_string(),
+        None => {
+            st.caps_hit.push("MACHINERY: giga case: the reference does not keep the filler prefix".into());
+            return;
+        }
+    };
+    let mut s = String::with_capacity(N + 64);
+    s.push_str(head);
+    let chunk = "a".repeat(1 << 20);
+    for _ in 0..(N >> 20) {
+        s.push_str(&chunk);
+    }
+    s.push_str(tail);
+    st.states += 1;
+    st.transitions += 1;
+    st.evaluations += 1;
+    let mk = || Case::new("giga").s(tail).x(json!([p.name(), r.name()]));
+    // linear work on 4 GiB: minutes, not seconds, on a loaded machine
+    let got = crate::watch::with_allowance(1800, || rule(p, r, &s));
+    drop(s);
+    match got {
+        Out::Ok(o) => {
+            let b = o.as_bytes();
+            let ok = b.len() == head.len() + N + exp_tail.len() && &b[..head.len()] == head.as_bytes() && b[head.len()..head.len() + N].iter().all(|x| *x == b'a') && &b[head.len() + N..] == exp_tail.as_bytes();
+            if !ok {
+                let first_bad = b.iter().skip(head.len()).take(N).position(|x| *x != b'a');
+                let end: String = String::from_utf8_lossy(&b[b.len().saturating_sub(24)..]).to_string();
+                st.violation(
+                    "rule",
+                    mk,
+                    format!("\"abcdefgh\" + 2^32 x 'a' + {}", crate::subject::show(&exp_tail)),
+                    format!("{} bytes, first non-filler byte inside the run at {:?}, ends with {}", b.len(), first_bad, crate::subject::show(&end)),
+                );
+            }
+        }
+        other => st.violation("rule", mk, format!("Ok(... {})", crate::subject::show(&exp_tail)), show_out(&other).chars().take(300).collect()),
+    }
+    st.count("out:giga-label");
+}
